@@ -6,7 +6,7 @@ package c10
 //	api <op>;<op>;…        op = <dst>=<name>[:<arg>,…]
 //	  registers pN (G1), qN (G2), eN (GT), bN (bool); a destination that already exists is
 //	  REUSED as the receiver (so p0=add:p0,p1 is the aliased call p0.Add(p0,p1))
-//	  base | null | mul:<k>,<src> | add:<a>,<b> | sub:<a>,<b> | neg:<a> | set:<a> | clone:<a>
+//	  base | null | mul:<k>,<src> | mulg:<k> (= Mul(k, nil)) | add:<a>,<b> | sub:<a>,<b> | neg:<a> | set:<a> | clone:<a>
 //	  eN=pair:<p>,<q>     bN=chk:<p>,<q>,<p>,<q>,…
 //
 // Output: every register in name order, marshalled (hex). Oracle: every point of such a
@@ -109,6 +109,11 @@ func execAPI(w []string) h.Result {
 			d := new(big.Int).Mod(new(big.Int).Mul(k, src.dlog), refOrder)
 			r.pt.Mul(sc, src.pt)
 			r.dlog = d
+		case "mulg": // Mul(s, nil): multiplication of the generator (fixed-base paths, tables, shared state)
+			k := h.BigDec(args[0])
+			sc := group(dst).Scalar().SetBytes(k.Bytes())
+			r.pt.Mul(sc, nil)
+			r.dlog = new(big.Int).Mod(k, refOrder)
 		case "add":
 			a, b := get(args[0]), get(args[1])
 			d := new(big.Int).Mod(new(big.Int).Add(a.dlog, b.dlog), refOrder)
